@@ -1048,7 +1048,10 @@ func genAPI(r *rand.Rand) (apiCase, []string) { //nolint:gocognit,cyclop
 		}
 	}
 	fullCycleAt := -1
-	if c.Max > 0 && r.Intn(12) == 0 {
+	// not in the large-window cases: three jumps of 21846 leave ~20000 numbers missing in a window above 16384,
+	// and with a limit the checkers' counter maps (association lists) go quadratic - one such case cost 45 GB and
+	// 10 minutes of coqc in the thorough tier; the full-cycle shape with windows <= 512 is covered here and by genAPICycle
+	if c.Max > 0 && !big && r.Intn(12) == 0 {
 		fullCycleAt = 1 + r.Intn(rounds-1)
 	}
 	for rd := 0; rd < rounds; rd++ {
